@@ -57,8 +57,12 @@ var clientProtos = []string{"direct", "none", "socks5"}
 func genRelayCase(r *common.Rng, idx int) RelayCase {
 	c := RelayCase{Kind: "udprelay", Seed: r.U64()}
 	c.Server = serverProtos[idx%4]
-	c.Client = []string{"direct", "none", "ss2022", "socks5", "direct"}[(idx/4)%5]
-	c.Batch = []string{"no", "sendmmsg"}[(idx/4+idx/16)%2]
+	// groups of four runs (one per server protocol): the first five groups, which a quick run reaches even on a
+	// loaded machine, cover the direct client on both I/O paths and every upstream protocol
+	sched := [][2]string{{"direct", "no"}, {"direct", "sendmmsg"}, {"none", "sendmmsg"}, {"ss2022", "no"}, {"socks5", "sendmmsg"},
+		{"none", "no"}, {"ss2022", "sendmmsg"}, {"socks5", "no"}}
+	g := sched[(idx/4)%len(sched)]
+	c.Client, c.Batch = g[0], g[1]
 	c.Clients = r.Range(2, 4)
 	c.Targets = r.Range(2, 3)
 	c.TunnelDom = r.Bool()
@@ -1408,7 +1412,7 @@ func sameLines(model, impl []string) bool {
 }
 
 func relayEngine(r *common.Rng, dns *scriptDNS, shared bool, o *common.Options, rep *common.Report) error {
-	n := o.Budget(24, 480)
+	n := o.Budget(32, 480)
 	t0 := time.Now()
 	limit := 45 * time.Second
 	if o.Thorough() {
